@@ -68,6 +68,9 @@ func waiter(b *broadcast.Broadcast, ctx context.Context, k, errAt int64, errObj 
 	if errCalls > 0 && err != errObj {
 		fail("C03.error-swallowed", "the predicate returned its error on call %d but Wait returned %v", errCalls, err)
 	}
+	if lastTrue && err != nil {
+		fail("C03.true-ignored", "the predicate's last evaluation returned true but Wait returned %v", err)
+	}
 	switch {
 	case err == nil:
 		if !lastTrue {
@@ -195,9 +198,75 @@ func init() {
 			// the predicate's error: a plain error, or one that wraps context.Canceled (still the predicate's
 			// own error object: it comes back unchanged, the waiter's context is live)
 			errE := []error{errE, fmt.Errorf("lookup failed: %w", context.Canceled)}[vsched.Choose(2)]
-			T("W", func() { waiter(&b, bg, 2, 1, errE) })
+			ctx := bg
+			if vsched.Choose(2) == 1 {
+				// the waiter's context is cancelled at any moment: whatever the predicate reported in an
+				// evaluation that did take place still is the result
+				c, cancel := context.WithCancel(bg)
+				ctx = c
+				T("C", func() { vsched.CtrSet(cCancel, 1); cancel() })
+			}
+			T("W", func() { waiter(&b, ctx, 2, 1, errE) })
 			T("B1", func() { bump(&b, 0) })
 			T("B2", func() { bump(&b, 2) })
+		},
+	})
+	eng.Register(&eng.Scenario{
+		Name: "bcast-reuse", Props: []string{"C03"}, MustFinish: true, ObsNames: stdObs,
+		Doc:   "Broadcast: one goroutine calls Wait three times in a row on two Broadcasts (predicate error at once; then x>=1 with a bumper; then a predicate that is true at once): each call's result is its own - nothing of an earlier call (its error, its wait channel, its done flag) shows up in a later one",
+		Quick: eng.Bounds{PB: 2}, Thorough: eng.Bounds{PB: 3},
+		Body: func() {
+			var b1, b2 broadcast.Broadcast
+			T("W", func() {
+				if err := b1.Wait(bg, func(func(), func() <-chan struct{}) (bool, error) { return false, errE }); err != errE {
+					fail("C03.error-changed", "first Wait: the predicate returned its error at once, Wait returned %v", err)
+				}
+				waiter(&b2, bg, 1, 0, nil)
+				if err := b1.Wait(bg, func(func(), func() <-chan struct{}) (bool, error) { return true, nil }); err != nil {
+					fail("C03.true-ignored", "third Wait: the predicate returned true at once, Wait returned %v", err)
+				}
+			})
+			T("B", func() { bump(&b2, 0) })
+		},
+	})
+	eng.Register(&eng.Scenario{
+		Name: "bcast-handshake", Props: []string{"C03"}, MustFinish: true, ObsNames: stdObs,
+		Doc:   "Broadcast: a predicate may itself change the guarded state and broadcast while reporting 'not yet': W1's predicate, once x>=1, sets y and broadcasts, then waits for z; W2 waits for y, then sets z and broadcasts; a bumper sets x: both waiters must return (a broadcast issued from inside a predicate is a broadcast)",
+		Quick: eng.Bounds{PB: 2}, Thorough: eng.Bounds{PB: 3},
+		Body: func() {
+			var b broadcast.Broadcast
+			const cY, cZ = 210, 211
+			T("W1", func() {
+				label("Broadcast.Wait")
+				err := b.Wait(bg, func(bc func(), _ func() <-chan struct{}) (bool, error) {
+					if vsched.Ctr(cZ) != 0 {
+						return true, nil
+					}
+					if vsched.Ctr(cX) >= 1 && vsched.Ctr(cY) == 0 {
+						vsched.CtrSet(cY, 1)
+						bc()
+					}
+					return false, nil
+				})
+				label("")
+				if err != nil {
+					fail("C03.error-changed", "W1: Wait returned %v", err)
+				}
+			})
+			T("W2", func() {
+				label("Broadcast.Wait")
+				err := b.Wait(bg, func(func(), func() <-chan struct{}) (bool, error) { return vsched.Ctr(cY) != 0, nil })
+				label("")
+				if err != nil {
+					fail("C03.error-changed", "W2: Wait returned %v", err)
+				}
+				b.HoldLock(func(bc func(), _ func() <-chan struct{}) { vsched.CtrSet(cZ, 1); bc() })
+			})
+			T("B", func() { bump(&b, 0) })
+			vsched.Settle()
+			if n := vsched.CountParked("Broadcast.Wait"); n > 0 {
+				fail("C03.missed-broadcast", "%d waiter(s) parked although x=%d y=%d z=%d: a broadcast issued by a predicate was lost", n, vsched.Ctr(cX), vsched.Ctr(cY), vsched.Ctr(cZ))
+			}
 		},
 	})
 	eng.Register(&eng.Scenario{
